@@ -58,18 +58,30 @@ func c14outcome(p parsley.Parser, in string, eval bool, fs *parsley.FileSet, f *
 	}
 	ctx := parsley.NewContext(fs, text.NewReader(f))
 	base := int(f.Pos(0))
-	if eval {
-		v, err := parsley.Evaluate(ctx, p)
+	one := func() string {
+		if eval {
+			v, err := parsley.Evaluate(ctx, p)
+			if err != nil {
+				return "error: " + err.Error()
+			}
+			return fmt.Sprintf("value: %#v", v)
+		}
+		n, err := parsley.Parse(ctx, p)
 		if err != nil {
 			return "error: " + err.Error()
 		}
-		return fmt.Sprintf("value: %#v calls=%d", v, ctx.CallCount())
+		return "tree: " + gram.Render(n, base)
 	}
-	n, err := parsley.Parse(ctx, p)
-	if err != nil {
-		return "error: " + err.Error()
+	first := one()
+	calls := ctx.CallCount()
+	if len(in)%3 == 0 {
+		// the SAME context used for a second parse after the first one returned (its result cache answers most of it):
+		// whatever the library keeps per context must still belong to this goroutine
+		if second := one(); second != first {
+			return "second parse on the same context differs: " + first + " / " + second
+		}
 	}
-	return "tree: " + gram.Render(n, base) + fmt.Sprintf(" calls=%d", ctx.CallCount())
+	return first + fmt.Sprintf(" calls=%d", calls)
 }
 
 var c14yield int64
